@@ -259,6 +259,8 @@ pub struct WorkerArgs {
     pub stride: u64,
     pub resume_sub: u64,
     pub single: Option<(u64, u64)>,
+    /// run exactly this file (fuzzer artifact triage)
+    pub file: Option<std::path::PathBuf>,
     pub as_limit_gib: u64,
     pub cpu_limit: u64,
 }
@@ -282,6 +284,22 @@ pub fn worker_main(ctx: &Ctx, a: WorkerArgs) -> i32 {
             let out = std::io::stdout();
             let mut b = a.first;
             let mut first_base = true;
+            if let Some(path) = &a.file {
+                let bytes = std::fs::read(path).unwrap_or_default();
+                let input = Input { operator: "fuzz:libfuzzer".into(), label: format!("fuzzer artifact {}", path.display()), bytes };
+                {
+                    let mut o = out.lock();
+                    let _ = writeln!(o, "B 0 0");
+                    let _ = o.flush();
+                }
+                let (code, v, extra) = run_input(plan.mode, 0, 0, &input, plan.seed);
+                let mut o = out.lock();
+                if let Some(v) = v {
+                    let _ = writeln!(o, "{}", v);
+                }
+                let _ = writeln!(o, "E 0 0 {} {}", code, extra);
+                return;
+            }
             if let Some((sb, ss)) = a.single {
                 let inputs = inputs_of_base(&plan, sb, &corpus);
                 if let Some(input) = inputs.get(ss as usize) {
@@ -686,4 +704,55 @@ pub fn supervise(ctx: &Ctx, cfg: &SupervisorCfg) -> SupResult {
         total.codes.extend(r.codes);
     }
     total
+}
+
+
+/// Triage of libFuzzer artifacts: each file is re-run in an isolated worker; returns a summary.
+pub fn triage_files(ctx: &Ctx, bin: &str, mode: Mode, dir: &std::path::Path) -> Summary {
+    use std::os::unix::process::ExitStatusExt;
+    let mut sum = Summary::default();
+    let mut files: Vec<_> = std::fs::read_dir(dir).map(|rd| rd.filter_map(|e| e.ok()).map(|e| e.path()).filter(|p| p.is_file()).collect()).unwrap_or_default();
+    files.sort();
+    for (k, f) in files.iter().enumerate().take(200) {
+        let bytes = std::fs::read(f).unwrap_or_default();
+        let budget = (10 + (bytes.len() as u64 * 50) / 1_000_000) * 10;
+        let out = Command::new(bin)
+            .arg("worker").arg("--mode").arg(mode.name()).arg("--seed").arg(ctx.seed.to_string()).arg("--file").arg(f).arg("--as-limit-gib").arg("12").arg("--cpu-limit").arg(budget.to_string())
+            .output();
+        let mut cr = CaseResult::default();
+        cr.nontrivial = true;
+        cr.feature = crate::rng::hash_bytes(&bytes) | 1;
+        cr.leaves = 1;
+        match out {
+            Err(e) => cr.inconclusive = Some(format!("cannot run worker on {}: {}", f.display(), e)),
+            Ok(o) => {
+                let text = String::from_utf8_lossy(&o.stdout).to_string();
+                let mut found = false;
+                for l in text.lines() {
+                    if let Some(js) = l.strip_prefix("V 0 0 ") {
+                        if let Ok(v) = serde_json::from_str::<Value>(js) {
+                            let mut viol = Violation::new(v["sig"].as_str().unwrap_or("?").to_string(), format!("[fuzzer artifact] {}", v["detail"].as_str().unwrap_or("")));
+                            viol.input = Some(bytes.clone());
+                            viol.extra = json!({"operator": "fuzz:libfuzzer", "artifact": f.display().to_string(), "mode": mode.name()});
+                            cr.violations.push(viol);
+                            found = true;
+                        }
+                    }
+                }
+                if !o.status.success() && !found {
+                    let tail = String::from_utf8_lossy(&o.stderr).to_string();
+                    let sig = o.status.signal();
+                    let kind = if sig == Some(libc::SIGXCPU) { "no-return".to_string() } else { classify_death(&tail, None) };
+                    let mut viol = Violation::new(format!("process-death|{}|{}|fuzz:libfuzzer", kind, mode.name()), format!("[fuzzer artifact] worker died ({:?}, {}) on {}", sig.map(signal_name), kind, f.display()));
+                    viol.input = Some(bytes.clone());
+                    viol.extra = json!({"operator": "fuzz:libfuzzer", "artifact": f.display().to_string(), "mode": mode.name()});
+                    cr.violations.push(viol);
+                    found = true;
+                }
+                cr.outcomes.push(if found { "fuzz-artifact:confirmed".into() } else { "fuzz-artifact:not-reproduced".into() });
+            }
+        }
+        sum.absorb(3_000_000 + k as u64, cr);
+    }
+    sum
 }
